@@ -121,14 +121,15 @@ theorem frame_jRead (s : St) (j : Nat) : Frame s (jRead s j) := by
     · exact Frame.trans (frame_setJob s j _) (snapGetReader_frame _ _ _ _)
     · exact frame_setPc s j _
 
-theorem frame_jstep {cfg : Cfg} {s s' : St} {j : Nat}
+theorem frame_jstep {cfg : Cfg} {s s' : St} {j : Nat} (hpf : cfg.pendFirst = true)
     (hnf : ∀ k, k < s.nJob → (s.job k).pc = .cLocked → (s.job k).nfRead = s.nextFile)
     (hs : jstep cfg s j = some s') : Frame s s' := by
   unfold jstep at hs
+  simp only [hpf, ↓reduceIte] at hs
   split at hs
   case isFalse => cases hs
   case isTrue hj =>
-  dsimp only at hs
+  try dsimp only at hs
   split at hs
   case h_1 hpc =>
     split at hs
@@ -209,8 +210,9 @@ theorem frame_jstep {cfg : Cfg} {s s' : St} {j : Nat}
     · cases hs
     · cases hs; exact frame_doRemove _ _ _ _
   case h_27 hpc => cases hs
+  case h_28 hpc => cases hs; constructor <;> simp only [jPendU] <;> grind [upd]
 
-theorem frame_step {cfg : Cfg} {s s' : St} {a : Act}
+theorem frame_step {cfg : Cfg} {s s' : St} {a : Act} (hpf : cfg.pendFirst = true)
     (hnf : ∀ k, k < s.nJob → (s.job k).pc = .cLocked → (s.job k).nfRead = s.nextFile)
     (hs : step cfg s a = some s') : Frame s s' := by
   cases a with
@@ -243,7 +245,7 @@ theorem frame_step {cfg : Cfg} {s s' : St} {a : Act}
     · cases hs; exact frame_snapRel _ _
     · cases hs
   | spawn k p => simp only [step] at hs; cases hs; exact frame_spawn _ _ _
-  | jstep j => exact frame_jstep hnf hs
+  | jstep j => exact frame_jstep hpf hnf hs
   | cleanup fs =>
     simp only [step] at hs
     split at hs
@@ -253,6 +255,16 @@ theorem frame_step {cfg : Cfg} {s s' : St} {a : Act}
     simp only [step] at hs
     split at hs
     · cases hs; constructor <;> simp
+    · cases hs
+  | sDec2 i =>
+    simp only [step] at hs
+    split at hs
+    · cases hs; constructor <;> simp
+    · cases hs
+  | getReaderNoRetain i f =>
+    simp only [step] at hs
+    split at hs
+    · cases hs; constructor <;> simp only [St.setSnap] <;> grind [upd]
     · cases hs
 
 end LinVerif.Lemmas.C02
